@@ -79,7 +79,7 @@ def getByName : List Attr → Bytes → Option Bytes
 def addAttribute (b : SecBuf) (content : List Attr) (field value : Bytes) :
     M (BitVec 32 × SecBuf × List Attr) :=
   if mod_add_guard true then do
-    let pos := mod_add_pos b.size
+    let pos := mod_add_pos (modinfo_section_size := b.size)
     let b' ← b.appendData (field ++ 61 :: (value ++ [0]))
     pure (pos, b', content ++ [(field, value)])
   else pure (0, b, content)
